@@ -177,7 +177,12 @@ def _replay_chunk(job):
     emb, pool = T.EMBS[embname], T.POOLS[poolname]
     out = []
     for i, v in enumerate(vecs):
-        ev, _ = run_vector(v, emb, pool, start + i)
+        try:
+            ev, _ = run_vector(v, emb, pool, start + i)
+        except common.MachineryError:
+            raise
+        except Exception as ex:  # noqa
+            ev = T.broken_event(start + i, v, ex)
         out.append(ev)
     return out
 
@@ -349,7 +354,14 @@ def map_histories(nhist, seed, start_id, maxlen=10):
                 argt = new_tier(rng.choice(names))
                 args = {"name": rng.choice(names), "mode": rng.choice(["silence", "warning", "error", "error", "bogus"])}
             vec = {"op": op, "args": args, "pre": pre, "argt": argt, "argtg": NOTG}
-            ev, _ = run_vector(vec, emb, pool, eid, recv=live)
+            try:
+                ev, _ = run_vector(vec, emb, pool, eid, recv=live)
+            except common.MachineryError:
+                raise
+            except Exception as ex:  # noqa
+                events.append(T.broken_event(eid, vec, ex))
+                eid += 1
+                break
             ev["hist"], ev["step"] = h, step
             events.append(ev)
             eid += 1
@@ -368,7 +380,14 @@ def sim_histories(behaviours, start_id, embname="dy", poolname="ascii"):
             if o.get("op", "none") == "none":
                 continue
             vec = {"op": o["op"], "args": o["args"], "pre": o["pre"], "argt": o["argt"], "argtg": o["argtg"]}
-            ev, _ = run_vector(vec, emb, pool, eid, recv=live)
+            try:
+                ev, _ = run_vector(vec, emb, pool, eid, recv=live)
+            except common.MachineryError:
+                raise
+            except Exception as ex:  # noqa
+                events.append(T.broken_event(eid, vec, ex))
+                eid += 1
+                break
             ev["hist"], ev["step"] = h, step
             if (ev["st"], ev["post"]) != (o["st"], o["post"]):
                 drift += 1
